@@ -192,11 +192,81 @@ pub fn install_panic_hook() {
     }));
 }
 
+/// Bounded-work watchdog in *CPU time* (load independent, unlike wall-clock): every entry to and exit
+/// from `guard` advances an epoch; a watchdog thread reads the CPU time of the process from
+/// /proc/self/stat and, when one epoch has consumed more than the limit, writes `<out>.hang.json`
+/// (marker = the last `hang::mark` text, a replay document when the monitor provides one) and ends
+/// the process with exit code 3. The driver turns that into a violation for C19 (which claims bounded
+/// work) and into an inconclusive shard for every other property.
+pub mod hang {
+    use std::sync::Mutex;
+    use std::sync::atomic::{AtomicU64, Ordering};
+    pub static EPOCH: AtomicU64 = AtomicU64::new(0);
+    static MARK: Mutex<String> = Mutex::new(String::new());
+
+    #[inline]
+    pub fn bump() {
+        EPOCH.fetch_add(1, Ordering::Relaxed);
+    }
+    /// Records what is about to run (shown in the report; JSON text becomes the replay document).
+    pub fn mark(s: &str) {
+        if let Ok(mut m) = MARK.lock() {
+            m.clear();
+            m.push_str(s);
+        }
+        bump();
+    }
+    fn cpu_seconds() -> Option<f64> {
+        let st = std::fs::read_to_string("/proc/self/stat").ok()?;
+        let rest = &st[st.rfind(')')? + 1..];
+        let f: Vec<&str> = rest.split_whitespace().collect();
+        // after the command name: state is field 3, utime 14, stime 15
+        let ut: f64 = f.get(11)?.parse().ok()?;
+        let stt: f64 = f.get(12)?.parse().ok()?;
+        Some((ut + stt) / 100.0)
+    }
+    pub fn start(out_path: Option<String>, prop: String, limit_cpu_s: f64) {
+        std::thread::spawn(move || {
+            let mut last = EPOCH.load(Ordering::Relaxed);
+            let mut cpu0 = cpu_seconds();
+            loop {
+                std::thread::sleep(std::time::Duration::from_millis(1000));
+                let e = EPOCH.load(Ordering::Relaxed);
+                let c = cpu_seconds();
+                if e != last {
+                    last = e;
+                    cpu0 = c;
+                    continue;
+                }
+                if let (Some(a), Some(b)) = (cpu0, c) {
+                    if b - a > limit_cpu_s {
+                        let mark = MARK.lock().map(|m| m.clone()).unwrap_or_default();
+                        let replay: serde_json::Value = serde_json::from_str(&mark).unwrap_or_else(|_| serde_json::json!({"marker": mark}));
+                        let doc = serde_json::json!({
+                            "property": prop,
+                            "signature": "bounded-work/no-return-within-cpu-budget",
+                            "description": format!("a library call (or the oracle evaluation right after it) has consumed {:.0} CPU-seconds without returning (limit {:.0}); last marker: {}", b - a, limit_cpu_s, mark.chars().take(600).collect::<String>()),
+                            "replay": replay,
+                        });
+                        if let Some(p) = &out_path {
+                            let _ = std::fs::write(format!("{}.hang.json", p), serde_json::to_string(&doc).unwrap_or_default());
+                        }
+                        eprintln!("hang watchdog: {}", doc["description"]);
+                        std::process::exit(3);
+                    }
+                }
+            }
+        });
+    }
+}
+
 /// Runs `f`, converting a panic into `Err(PanicInfo)`.
 pub fn guard<T>(f: impl FnOnce() -> T) -> Result<T, PanicInfo> {
+    hang::bump();
     GUARD_DEPTH.with(|d| d.set(d.get() + 1));
     let r = catch_unwind(AssertUnwindSafe(f));
     GUARD_DEPTH.with(|d| d.set(d.get() - 1));
+    hang::bump();
     match r {
         Ok(v) => Ok(v),
         Err(_) => Err(LAST_PANIC.with(|p| p.borrow_mut().take()).unwrap_or(PanicInfo { message: "<unknown>".into(), location: String::new() })),
